@@ -50,7 +50,9 @@ func (s *SearchParams) init(query string) {
 }
 
 func (s *SearchParams) update() {
-	if s.url == nil {
+	// only a URL's own parameter list writes through; a copy made by Clone still refers to the URL (for its
+	// parser) but must not overwrite that URL's query
+	if s.url == nil || s.url.searchParams != s {
 		return
 	}
 	query := s.String()
